@@ -9,7 +9,11 @@
 #   p0 = 1
 #   p1 = 0
 #   sqrt2h = 0.7071067811?
+I = {'p0': 1.0, 'p1': 0.0, 'cls': 'MZgate', 'modes': [2, 0], 'n': 3, 'dagger': True, 'nparams': 2}
+OBLIGATION = 'MZgate.decompose/modes=2,0/n=3/dagger/S[0,2]'
+
 import sys
-print('obligation MZgate.decompose/modes=2,0/n=3/dagger/S[0,2] is not discharged on this tree; no failing concrete input was constructed')
-print('no-failing-input-found')
-sys.exit(1)
+def violated(msg):
+    print("REPLAY-VIOLATION", OBLIGATION, "-", msg)
+    sys.exit(1)
+from native.c01_backends import replay_decomposition; replay_decomposition(OBLIGATION, I)
